@@ -1,6 +1,7 @@
 package main
 
 import (
+	"bytes"
 	"errors"
 	"fmt"
 	"net"
@@ -155,6 +156,8 @@ func runConn(id string, toks []string) (res string) {
 		}
 	}()
 	switch toks[0] {
+	case "pf":
+		return runPlainFraming(toks)
 	case "cr":
 		k := sharedKey(toks[1])
 		var evs []string
@@ -251,4 +254,88 @@ func runConn(id string, toks []string) (res string) {
 		return "r1=" + r1 + " r2=" + r2
 	}
 	return "badcase"
+}
+
+// case: pf <lens: header/body,header/body,...> <segment sizes,...> <buffer sizes,...>
+// The plaintext phase of a connection: HTTP requests (header of the given length incl. its blank line, body of the given
+// length announced by Content-Length) arrive back to back, cut into segments of the given sizes; the reader asks with the
+// given buffer sizes (cyclically).  After each complete request the reader plays net/http: it declares the request "being
+// handled", asks once more (nothing of the next request may be handed over now), then declares it answered.
+// Observed: "ok <n reads>" when every read stayed inside one request and everything came out in order; else what failed.
+func runPlainFraming(toks []string) string {
+	var msgs [][]byte
+	for i, t := range strings.Split(toks[1], ",") {
+		hb := strings.Split(t, "/")
+		h, _ := strconv.Atoi(hb[0])
+		b, _ := strconv.Atoi(hb[1])
+		head := fmt.Sprintf("POST /m%d HTTP/1.1\r\nHost: x\r\nContent-Length: %d\r\nX-Pad: ", i, b)
+		for len(head)+4 < h {
+			head += "p"
+		}
+		head += "\r\n\r\n"
+		body := make([]byte, b)
+		for j := range body {
+			body[j] = byte('a' + (i+j)%26)
+		}
+		msgs = append(msgs, append([]byte(head), body...))
+	}
+	var stream []byte
+	var ends []int
+	for _, m := range msgs {
+		stream = append(stream, m...)
+		ends = append(ends, len(stream))
+	}
+	var evs []string
+	rest := stream
+	segs := strings.Split(toks[2], ",")
+	for i := 0; len(rest) > 0; i++ {
+		n, _ := strconv.Atoi(segs[i%len(segs)])
+		if n < 1 {
+			n = 1
+		}
+		if n > len(rest) {
+			n = len(rest)
+		}
+		evs = append(evs, "D:"+hx(rest[:n]))
+		rest = rest[n:]
+	}
+	sc, con, _ := newScripted(evs)
+	bufs := strings.Split(toks[3], ",")
+	var got []byte
+	cur := 0 // index of the request the next byte belongs to
+	reads := 0
+	for k := 0; len(got) < len(stream) && k < 2000000; k++ {
+		n, _ := strconv.Atoi(bufs[k%len(bufs)])
+		if n < 1 {
+			n = 1
+		}
+		buf := make([]byte, n)
+		m, err := con.Read(buf)
+		reads++
+		if sc.blocked || err != nil {
+			return fmt.Sprintf("stalled after %d of %d bytes", len(got), len(stream))
+		}
+		if m > 0 && len(got)+m > ends[cur] {
+			return fmt.Sprintf("read-crosses-request-boundary at byte %d: %d bytes handed over, request %d ends at %d", len(got), m, cur, ends[cur])
+		}
+		got = append(got, buf[:m]...)
+		if len(got) == ends[cur] {
+			// the request is complete: it is being handled now
+			con.SetResponding(true)
+			if cur+1 < len(ends) {
+				one := make([]byte, 1)
+				if m2, err2 := con.Read(one); m2 != 0 || (err2 != nil && !sc.blocked) {
+					con.SetResponding(false)
+					return fmt.Sprintf("handed-over-while-handling request %d: %d bytes", cur, m2)
+				}
+				sc.blocked = false
+			}
+			con.SetResponding(false)
+			cur++
+		}
+	}
+	if !bytes.Equal(got, stream) {
+		return "bytes-differ"
+	}
+	return fmt.Sprintf("ok")
 }
